@@ -96,6 +96,8 @@ pub struct Gen<'a, 'd> {
     callable: Vec<usize>,
     in_show: bool,
     counters: HashSet<VarId>,
+    /// closures may flow into declared function-typed positions
+    esc_ok: bool,
 }
 
 fn is_printable_ty(t: &Ty) -> bool {
@@ -105,6 +107,7 @@ fn is_printable_ty(t: &Ty) -> bool {
 impl<'a, 'd> Gen<'a, 'd> {
     pub fn new(d: &'a mut Dec<'d>, cfg: GenCfg, gates: &'a mut dyn Gates) -> Self {
         let budget = cfg.max_nodes as i64;
+        let esc_ok = !cfg.closures || !gates.gated("closure:escapes");
         Gen {
             d,
             cfg,
@@ -121,6 +124,7 @@ impl<'a, 'd> Gen<'a, 'd> {
             callable: vec![],
             in_show: false,
             counters: HashSet::new(),
+            esc_ok,
         }
     }
 
@@ -197,7 +201,7 @@ impl<'a, 'd> Gen<'a, 'd> {
             if comp && self.cfg.containers { 6 } else { 0 },           // array
             if comp && self.cfg.containers { 5 } else { 0 },           // ref
             if comp && self.cfg.containers { 4 } else { 0 },           // vec
-            if comp && self.cfg.closures { if self.cfg.focus == Focus::Closures { 16 } else { 6 } } else { 0 }, // fn
+            if comp && self.cfg.closures && self.esc_ok { if self.cfg.focus == Focus::Closures { 16 } else { 6 } } else { 0 }, // fn
         ];
         match self.d.weighted(&w) {
             0 => Ty::Int(self.int_kind()),
@@ -508,6 +512,13 @@ impl<'a, 'd> Gen<'a, 'd> {
             Ty::Int(k) => Expr::Call(Callee::Builtin(Builtin::IntToString(*k)), vec![e]),
             Ty::Str => e,
             Ty::Param(_) => Expr::Str("?".into()),
+            Ty::Fn(ps, r) if !self.esc_ok => {
+                // call it in place (the closure must not be passed around)
+                let args: Vec<Expr> = ps.iter().map(|t| self.const_leaf(t)).collect();
+                let call = Expr::Call(Callee::Val(Box::new(e)), args);
+                let s = self.show(r, call);
+                Self::concat(vec![Expr::Str("fn:".into()), s])
+            }
             _ => {
                 let f = self.show_fn(t);
                 Expr::Call(Callee::Fn(f, vec![]), vec![e])
@@ -1386,7 +1397,7 @@ impl<'a, 'd> Gen<'a, 'd> {
                 let k = self.d.below(tparams as usize) as u32;
                 match self.d.below(3) {
                     0 => Ty::Tuple(vec![Ty::Param(k), Ty::i32()]),
-                    1 if self.cfg.closures => Ty::Fn(vec![Ty::Param(k)], Box::new(Ty::Param(k))),
+                    1 if self.cfg.closures && self.esc_ok => Ty::Fn(vec![Ty::Param(k)], Box::new(Ty::Param(k))),
                     _ => Ty::Param(k),
                 }
             } else {
